@@ -33,7 +33,8 @@ Templates ==
     <<SFor(I, LI(1), LI(2)), PA>>, <<PS(<<110>>), SNext(<<>>)>>,
     <<SWhile(Bin("lt", A, LI(2))), PS(<<119>>)>>, <<SLet(A, Bin("add", A, LI(1))), SWend>>,
     <<SRead(<<A>>), PA, SRestore(20)>>, <<SData(<<MkI(4), MkI(5)>>), PS(<<100>>)>>,
-    <<PS(<<69>>), SEnd>>, <<PA, SPrint(<<PE(Bin("idiv", LI(1), A))>>)>> }
+    <<PS(<<69>>), SEnd>>, <<PA, SPrint(<<PE(Bin("idiv", LI(1), A))>>)>>,
+    <<SIf(Bin("gt", A, LI(2)), <<PS(<<66>>), SEnd>>, <<>>)>>, <<SRem>> }
   \cup (IF Tset > 1 THEN { <<SStop, PS(<<83>>)>>, <<SRestore(-1), SRead(<<B>>), SPrint(<<PE(B)>>)>>,
                            <<SDef("FNA", <<Var("X", "X", "")>>, Bin("add", Var("X", "X", ""), A)), PS(<<68>>)>>,
                            <<SPrint(<<PE(FnCall("FNA", <<LI(1)>>)), PSep(";")>>)>> } ELSE {})
